@@ -126,6 +126,20 @@ class Att(object):
         pass
 
 
+
+class EqAtt(Att):
+    """attachers that compare by value (dataclass-style): two distinct instances are equal, yet they are different attachers"""
+
+    def __eq__(self, other):
+        return isinstance(other, EqAtt)
+
+    def __ne__(self, other):
+        return not isinstance(other, EqAtt)
+
+    def __hash__(self):
+        return 17
+
+
 class W(object):
     pass
 
@@ -149,7 +163,7 @@ def _answers(answer, mode, exit_target, two, later, resolve=False):
         w.foreign = Circuit(state)
         w.foreign.id = 77
         w.foreign.state = 'BUILT'
-    att = Att(w)
+    att = EqAtt(w)
     reactor = FakeReactor()
     try:
         state.set_attacher(att, reactor)
@@ -194,7 +208,7 @@ def _answers(answer, mode, exit_target, two, later, resolve=False):
             return R('spurious-attacher-error-report', '%r', errors[0])
         # a second, different attacher is refused; the same one is a no-op; None removes it
         try:
-            state.set_attacher(Att(w), reactor)
+            state.set_attacher(EqAtt(w), reactor)      # a different attacher, even though it compares equal
             return R('second-attacher-accepted')
         except RuntimeError:
             pass
@@ -448,6 +462,10 @@ def _via(order, late_ack=False):
                 return R('unrelated-stream-captured-or-undecided', '%r (order %r)', pump.attach_lines(13), [_NAMES[c] for c in order])
             if F2 in done and outs[2].err != 1:
                 return R('connect-did-not-fail-although-its-circuit-failed')
+            # no SOCKS connection is opened on behalf of a circuit that is not (or never gets) BUILT: its stream could only be
+            # attached somewhere else
+            if B2 not in done and eps[2].connected:
+                return R('underlying-connect-started-before-its-circuit-was-built', 'order %r', [_NAMES[c] for c in order])
         if errors:
             return R('attacher-error-reported', '%r', errors[0])
     except Exception as e:
